@@ -822,5 +822,22 @@ func c08After(cached, closerFlavour, withInterval bool) (fail string) {
 		return fmt.Sprintf("after Close had returned the reporter was called again (%v) although only old handles were used and Close was repeated", log.Snapshot()[n1])
 	}
 	ot.Record(time.Millisecond) // forwarded directly; must not panic
+	// old SCOPE handles (the root, scopes obtained before Close): asking them for metrics, known names
+	// and new ones, and recording must be harmless (no panic; what the reporter sees is not judged)
+	for _, sc := range []tally.Scope{root, oldSub, oldTag} {
+		sc.Counter("c").Inc(1)
+		sc.Counter("c_new").Inc(1)
+		sc.Gauge("g").Update(1)
+		sc.Gauge("g_new").Update(1)
+		sc.Timer("t").Record(time.Millisecond)
+		sc.Timer("t_new").Record(time.Millisecond)
+		sc.Timer("t_new2").Start().Stop()
+		sc.Histogram("h", tally.ValueBuckets{1, 2}).RecordValue(1)
+		sc.Histogram("h_new", tally.DurationBuckets{time.Second}).RecordDuration(time.Millisecond)
+		sc.Capabilities()
+		if ts, ok := sc.(tally.TestScope); ok {
+			ts.Snapshot()
+		}
+	}
 	return ""
 }
